@@ -32,7 +32,7 @@ KEEP = os.environ.get("VERIF_KEEP", "0") != "0"
 CHECK_FLAGS = ["--bounds-check", "--pointer-check", "--pointer-overflow-check",
                "--signed-overflow-check", "--div-by-zero-check",
                "--pointer-primitive-check", "--drop-unused-functions", "--slice-formula",
-               "--no-malloc-may-fail"]
+               "--no-malloc-may-fail", "--object-bits", "12"]
 
 
 class Undecided(Exception):
